@@ -1,36 +1,67 @@
 #!/usr/bin/env python3
-# Applies each seeded change under /verif/seeded/*/patch.diff to /repo, runs the quick checks of the
-# claimed properties, records which checks report a violation, and reverts /repo.  Maintenance tool.
-import json, subprocess, sys, os, glob
+"""Detection matrix for the seeded changes (maintenance tool, not a registered check).
+
+  run_seeded.py [--jobs N] [seed ids...]
+
+For each /verif/seeded/<id>/patch.diff a scratch copy of /repo's working tree is made under
+$TMPDIR, the patch applied, and the quick check of every claimed property run with
+--repo <scratch> (no evidence written).  Records in <id>/detection.json which checks report
+a violation and with which obligations, then removes the scratch copy.
+"""
+import json, subprocess, sys, os, glob, tempfile, shutil, argparse, concurrent.futures
 VERIF = os.environ.get('VERIF_DIR', '/verif')
 REPO = os.environ.get('VP_RUN_REPO') or os.environ.get('REPO_DIR', '/repo')
-if not os.path.exists(VERIF + '/bin/vcheck'):
-    subprocess.run('cd %s/engine && GOFLAGS=-mod=vendor GOPROXY=off GOSUMDB=off GOTOOLCHAIN=local go build -o %s/bin/vcheck .' % (VERIF, VERIF), shell=True, check=True)
+ap = argparse.ArgumentParser()
+ap.add_argument('--jobs', type=int, default=2)
+ap.add_argument('--props')
+ap.add_argument('seeds', nargs='*')
+args = ap.parse_args()
 man = json.load(open(VERIF + '/MANIFEST.json'))
 props = [c['property_id'] for c in man['checks']]
-dirs = sorted(glob.glob(VERIF + '/seeded/*/')) if len(sys.argv) < 2 else [VERIF + '/seeded/%s/' % a for a in sys.argv[1:]]
-only = os.environ.get('ONLY_PROPS')
-if only: props = only.split(',')
-for d in dirs:
+if args.props:
+    props = args.props.split(',')
+dirs = sorted(glob.glob(VERIF + '/seeded/*/')) if not args.seeds else [VERIF + '/seeded/%s/' % a for a in args.seeds]
+
+
+def one(d):
     name = os.path.basename(d.rstrip('/'))
-    st = subprocess.run(['git', '-C', REPO, 'status', '--porcelain'], capture_output=True, text=True).stdout.strip()
-    if st:
-        print('refusing: /repo is dirty:', st); sys.exit(1)
-    r = subprocess.run(['git', '-C', REPO, 'apply', '--3way', d + 'patch.diff'], capture_output=True, text=True)
-    if r.returncode != 0:
-        print(name, 'PATCH DOES NOT APPLY', r.stderr[:300]); subprocess.run(['git','-C',REPO,'checkout','--','.']); continue
-    flagged = {}
+    scratch = tempfile.mkdtemp(prefix='vsd-')
     try:
+        subprocess.run(['rsync', '-a', '--exclude', '.git', REPO + '/', scratch + '/'], check=True)
+        r = subprocess.run(['patch', '-p1', '-s', '-d', scratch, '-i', d + 'patch.diff'], capture_output=True, text=True)
+        if r.returncode != 0:
+            return name, None, 'PATCH DOES NOT APPLY ' + (r.stdout + r.stderr)[:300]
+        flagged = {}
         for p in props:
-            out = subprocess.run([VERIF + '/bin/vcheck', 'check', '--property', p, '--tier', 'quick', '--no-evidence', '--repo', REPO, '--verif', VERIF], capture_output=True, text=True, cwd=VERIF)
+            out = subprocess.run([VERIF + '/bin/vcheck', 'check', '--property', p, '--tier', 'quick', '--no-evidence', '--discard-queries',
+                                  '--repo', scratch, '--verif', VERIF], capture_output=True, text=True, cwd=VERIF)
             viol = [l for l in out.stdout.split('\n') if l.startswith('VIOLATION')]
             if out.returncode == 1:
-                flagged[p] = [v.split('replay=')[1].split('/')[-1][:110] + (' (no input)' if v.endswith('no-failing-input-found') else ' (input reproduced)') for v in viol]
+                items = []
+                for v in viol:
+                    path = v.split('replay=')[1].split()[0]
+                    ob = os.path.basename(path)
+                    try:
+                        ob = json.load(open(path)).get('obligation', ob)
+                    except Exception:
+                        pass
+                    items.append(ob + (' (no input)' if v.endswith('no-failing-input-found') else ' (input reproduced)'))
+                flagged[p] = items
             elif out.returncode != 0:
                 flagged[p] = ['ENGINE EXIT %d: %s' % (out.returncode, (out.stderr or out.stdout)[-300:])]
+        return name, flagged, ''
     finally:
-        subprocess.run(['git', '-C', REPO, 'reset', '-q', '--hard', 'HEAD'])
-    print('==', name, 'flagged by:', sorted(flagged))
-    for p, v in sorted(flagged.items()):
-        for x in v[:6]: print('    ', p, x)
-    json.dump({'flagged': flagged}, open(d + 'detection.json', 'w'), indent=1)
+        shutil.rmtree(scratch, ignore_errors=True)
+
+
+with concurrent.futures.ThreadPoolExecutor(max_workers=args.jobs) as ex:
+    for name, flagged, err in ex.map(one, dirs):
+        if flagged is None:
+            print('==', name, err)
+            continue
+        print('==', name, 'flagged by:', sorted(flagged), flush=True)
+        for p, v in sorted(flagged.items()):
+            for x in v[:6]:
+                print('    ', p, x)
+        head = subprocess.run(['git', '-C', REPO, 'rev-parse', '--short', 'HEAD'], capture_output=True, text=True).stdout.strip()
+        json.dump({'repo_commit': head, 'properties_checked': props, 'flagged': flagged}, open(VERIF + '/seeded/' + name + '/detection.json', 'w'), indent=1)
